@@ -676,6 +676,17 @@ func mergeStates(base int, sts []*State) *State {
 	})
 	for _, o := range objs {
 		v0 := live[0].env[o]
+		// the same parameter object of a generic function inlined at different
+		// instantiations may hold values of different sorts: such a variable is dead here
+		sameSort := true
+		for _, s := range live {
+			if v, ok := s.env[o]; ok && c.sortOf(v.T) != c.sortOf(v0.T) {
+				sameSort = false
+			}
+		}
+		if !sameSort {
+			continue
+		}
 		t, ok := pick(c.sortOf(v0.T), func(s *State) (string, bool) { v, ok := s.env[o]; return v.S, ok })
 		if ok {
 			m.env[o] = Value{T: v0.T, S: t}
